@@ -27,7 +27,7 @@ RULE = (
 )
 ASSUMPTIONS = ["names contain no line breaks (control characters are outside the domain)"]
 BUDGET = {"quick": (220, 4), "thorough": (32000, 16)}
-REQUIRED = ["nested", "multi_action_file", "no_history", "sf_noroot", "sf_root", "sf_relative", "deep_nesting", "renamed_file"]
+REQUIRED = ["nested", "multi_action_file", "no_history", "sf_noroot", "sf_root", "sf_relative", "deep_nesting", "renamed_file", "bulk_history"]
 
 CFG = {
     "kinds": ["create"] * 6 + ["create_sf"] * 2 + ["put_new", "overwrite", "overwrite", "restore"],
@@ -49,21 +49,70 @@ def _scn(draw):
         m = hist.GenModel(scn["tree"])
         for s_ in scn["steps"]:
             m.apply(s_)
-        if m.files and m.roots:
-            src = draw(st.sampled_from(sorted(m.files)))
+        if m.roots and "renameme.mov" not in hist.top_names_used(scn):
+            # (rename detection identifies files by their first recorded digest: a fresh file with content no other file
+            # has, sealed once and then renamed - the precondition C17 states)
+            parent = draw(st.sampled_from([""] + sorted(m.dirs)))
+            src = (parent + "/" if parent else "") + "renameme.mov"
             dst = src + ".renamed"
-            if dst not in m.files and dst not in m.dirs:
+            scn["steps"].append({"op": "put_new", "path": src, "spec": "content that only the renamed file has"})
+            scn["steps"].append({"op": "create", "root": "", "formats": draw(gen.formats(2)), "flags": []})
+            scn["steps"].append({"op": "mv", "src": src, "dst": dst})
+            scn["steps"].append({"op": "create", "root": "", "formats": draw(gen.formats(2)), "flags": ["-dr"]})
+            if draw(st.booleans()):
                 scn["steps"].append({"op": "create", "root": "", "formats": draw(gen.formats(2)), "flags": []})
-                scn["steps"].append({"op": "mv", "src": src, "dst": dst})
-                scn["steps"].append({"op": "create", "root": "", "formats": draw(gen.formats(2)), "flags": ["-dr"]})
-                if draw(st.booleans()):
-                    scn["steps"].append({"op": "create", "root": "", "formats": draw(gen.formats(2)), "flags": []})
     scn["cwd"] = draw(st.sampled_from(["parent", "filedir", "base"]))
     return scn
 
 
 def strategy(tier):
-    return _scn()
+    bulk = st.fixed_dictionaries({"kind": st.just("bulk"), "n": st.integers(170, 260), "seed": st.integers(0, 2**31), "formats": st.lists(gen.format_sets(3), min_size=2, max_size=2)})
+    return st.one_of(*([_scn()] * 24 + [bulk]))
+
+
+def run_bulk(scn, ctx):
+    """a history whose manifests are far larger than one read block of the XML parser: every file's lines are checked"""
+    import random
+
+    rnd = random.Random(scn["seed"])
+    with World("c19b") as w:
+        names = []
+        for i in range(scn["n"]):
+            d = "reel %d" % (i % 4)
+            nm = "%s/%s clip_%05d_%s.mov" % (d, "x" * rnd.randint(0, 30), i, "".join(rnd.choice("abcdefghijk é&") for _ in range(rnd.randint(2, 20))).strip())
+            names.append(nm)
+            w.put("R/" + nm, "content %d" % i)
+        for fm in scn["formats"]:
+            res = w.create("R", fm)
+            require(res.exc is None and res.exit_code == 0, "setup", res.brief(), res)
+        docs = w.read_history("R")
+        want = {}
+        for n, p, d in docs:
+            for rec in d["records"]:
+                if rec["kind"] == "file":
+                    want.setdefault(rec["path"], []).extend((n, d["creatorinfo"].get("creationdate"), e["fmt"], e["digest"], e["action"]) for e in rec["entries"])
+        res = w.info("R", sf=["R/" + nm for nm in names])
+        require(res.exc is None and res.exit_code == 0, "sf-exit", res.brief()[:300], res)
+        got = {}
+        cur = None
+        for l in res.stdout.splitlines()[1:]:
+            m = SF_RE.match(l)
+            if m:
+                got[cur].append((int(m.group(1)), m.group(2), m.group(3), m.group(4), m.group(5)))
+            elif l.endswith(":"):
+                cur = l[:-1]
+                got[cur] = []
+            else:
+                require(False, "sf-format", "unexpected line %r" % l[:200], res)
+        require(set(got) == set(want), "sf-path", "info -sf lists %d files, %d recorded" % (len(got), len(want)), res)
+        for pth in want:
+            require(sorted(got[pth]) == sorted(want[pth]), "sf-lines", "info -sf %r prints %r, manifests hold %r" % (pth, got[pth], want[pth]), res)
+        size = max(len(b) for p, b in w.asc_files().items() if p.endswith(".mhl"))
+        ctx.event("bulk_history")
+        if size > 3 * 32768:
+            ctx.event("manifest>96KiB")
+        ctx.mark_nontrivial()
+        return w.trace[-6:]
 
 
 def parse_info(out):
@@ -87,6 +136,8 @@ def parse_info(out):
 
 
 def run_case(scn, ctx):
+    if scn.get("kind") == "bulk":
+        return run_bulk(scn, ctx)
     feats = set()
     with World("c19") as w:
         hist.setup_world(w, scn)
